@@ -100,3 +100,79 @@ package dig
 //@   requires shape(t)
 //@   ensures result == headSize(t)
 //@   loop#0 invariant n == sumSize(t.fields, rangeindex + 1)
+
+// C11/C14: the row builder's field table. Each name returns exactly the Go
+// field it denotes (loop-free: complete over all names); log fields need a
+// log, trace fields a trace action.
+//@ spec islogfield(n string) bool = n == "log_idx" || n == "log_addr"
+//@ spec istracefield(n string) bool = n == "trace_action_call_type" || n == "trace_action_idx" || n == "trace_action_from" || n == "trace_action_to" || n == "trace_action_value"
+//@ spec isblockfield(n string) bool = n == "block_hash" || n == "block_num" || n == "block_time"
+//@ spec isctxfield(n string) bool = n == "src_name" || n == "ig_name" || n == "chain_id"
+//@ func (*logWithCtx).get props=C11,C14
+//@   requires lwc != nil
+//@   requires !isctxfield(name) ==> lwc.b != nil
+//@   requires !isctxfield(name) && !isblockfield(name) && !istracefield(name) && !islogfield(name) ==> lwc.t != nil
+//@   requires islogfield(name) ==> lwc.l != nil
+//@   requires istracefield(name) ==> lwc.ta != nil
+//@   ensures [src_name] name == "src_name" ==> istype(result, "string") && unbox(result, "string") == wctx_SrcName(lwc.ctx)
+//@   ensures [ig_name] name == "ig_name" ==> istype(result, "string") && unbox(result, "string") == wctx_IGName(lwc.ctx)
+//@   ensures [chain_id] name == "chain_id" ==> istype(result, "uint64") && unbox(result, "uint64") == wctx_ChainID(lwc.ctx)
+//@   ensures [block_hash] name == "block_hash" ==> istype(result, "[]byte") && unbox(result, "[]byte") == (*lwc.b).Header.Hash
+//@   ensures [block_num] name == "block_num" ==> istype(result, "uint64") && unbox(result, "uint64") == uint64((*lwc.b).Header.Number)
+//@   ensures [block_time] name == "block_time" ==> istype(result, "eth.Uint64") && unbox(result, "eth.Uint64") == (*lwc.b).Header.Time
+//@   ensures [tx_idx] name == "tx_idx" ==> istype(result, "eth.Uint64") && unbox(result, "eth.Uint64") == (*lwc.t).Idx
+//@   ensures [tx_signer] name == "tx_signer" ==> istype(result, "[]byte") && unbox(result, "[]byte") == (*lwc.t).From
+//@   ensures [tx_to] name == "tx_to" ==> istype(result, "[]byte") && unbox(result, "[]byte") == (*lwc.t).To
+//@   ensures [tx_input] name == "tx_input" ==> istype(result, "[]byte") && unbox(result, "[]byte") == (*lwc.t).Data
+//@   ensures [tx_type] name == "tx_type" ==> istype(result, "eth.Byte") && unbox(result, "eth.Byte") == (*lwc.t).Type
+//@   ensures [tx_status] name == "tx_status" ==> istype(result, "eth.Byte") && unbox(result, "eth.Byte") == (*lwc.t).Receipt.Status
+//@   ensures [tx_gas_used] name == "tx_gas_used" ==> istype(result, "eth.Uint64") && unbox(result, "eth.Uint64") == (*lwc.t).Receipt.GasUsed
+//@   ensures [tx_nonce] name == "tx_nonce" ==> istype(result, "eth.Uint64") && unbox(result, "eth.Uint64") == (*lwc.t).Nonce
+//@   ensures [tx_contract_address] name == "tx_contract_address" ==> istype(result, "[]byte") && unbox(result, "[]byte") == (*lwc.t).Receipt.ContractAddress
+//@   ensures [log_idx] name == "log_idx" ==> istype(result, "eth.Uint64") && unbox(result, "eth.Uint64") == (*lwc.l).Idx
+//@   ensures [log_addr] name == "log_addr" ==> istype(result, "[]byte") && unbox(result, "[]byte") == (*lwc.l).Address
+//@   ensures [trace_action_call_type] name == "trace_action_call_type" ==> istype(result, "string") && unbox(result, "string") == (*lwc.ta).CallType
+//@   ensures [trace_action_idx] name == "trace_action_idx" ==> istype(result, "uint64") && unbox(result, "uint64") == (*lwc.ta).Idx
+//@   ensures [trace_action_from] name == "trace_action_from" ==> istype(result, "[]byte") && unbox(result, "[]byte") == (*lwc.ta).From
+//@   ensures [trace_action_to] name == "trace_action_to" ==> istype(result, "[]byte") && unbox(result, "[]byte") == (*lwc.ta).To
+
+// C11: values are mapped by ABI type: addresses to the last 20 bytes,
+// booleans to d[31] == 1, strings and byte strings unchanged, integers to the
+// 256-bit value of the word (uint256.SetBytes, assumed).
+//@ func dbtype props=C11
+//@   ensures [int] hasprefix(abitype, "int") ==> istype(result, "*negInt") && (*unbox(result, "*negInt")).i != nil && *(*unbox(result, "*negInt")).i == u256of(d)
+//@   ensures [uint] !hasprefix(abitype, "int") && hasprefix(abitype, "uint") ==> istype(result, "*uint256.Int") && *unbox(result, "*uint256.Int") == u256of(d)
+//@   ensures [address] !hasprefix(abitype, "int") && !hasprefix(abitype, "uint") && hasprefix(abitype, "address") && len(d) == 32 ==> istype(result, "[]byte") && unbox(result, "[]byte") == d[12:]
+//@   ensures [bool] abitype == "bool" && len(d) == 32 ==> istype(result, "bool") && unbox(result, "bool") == (d[31] == 1)
+//@   ensures [bool-short] abitype == "bool" && len(d) != 32 ==> istype(result, "bool") && !unbox(result, "bool")
+//@   ensures [string] abitype == "string" ==> istype(result, "string") && unbox(result, "string") == string(d)
+//@   ensures [bytes] abitype == "bytes" && len(d) > 0 ==> istype(result, "[]byte") && unbox(result, "[]byte") == d
+
+// C12: the operator matrix. A filter without arguments and reference adds
+// nothing; otherwise the field is compared with the argument(s) by the
+// operator and the result is folded into frs (addedVal). Integers: the first
+// argument, decimal (strconv / uint256.SetFromDecimal, assumed); strings:
+// membership for contains/!contains, the first argument for eq/ne.
+//@ spec addedVal(set bool, val bool, kind string, b bool) bool = !set ? b : (kind == "and" ? (val && b) : (val || b))
+//@ func (Filter).Accept props=C12
+//@   requires frs != nil
+//@   requires istype(d, "*uint256.Int") ==> unbox(d, "*uint256.Int") != nil
+//@   requires len(f.Arg) == 0 ==> len(f.Ref.Integration) == 0 || istype(d, "[]byte") || istype(d, "eth.Bytes")
+//@   ensures [no-filter] len(f.Arg) == 0 && len(f.Ref.Integration) == 0 ==> result == nil && frs.set == old(frs.set) && frs.val == old(frs.val)
+//@   ensures [kind] frs.kind == old(frs.kind)
+//@   ensures [u64-eq] result == nil && len(f.Arg) > 0 && istype(d, "uint64") && f.Op == "eq" ==> frs.set && frs.val == addedVal(old(frs.set), old(frs.val), frs.kind, unbox(d, "uint64") == parseu64(f.Arg[0]))
+//@   ensures [u64-ne] result == nil && len(f.Arg) > 0 && istype(d, "uint64") && f.Op == "ne" ==> frs.set && frs.val == addedVal(old(frs.set), old(frs.val), frs.kind, unbox(d, "uint64") != parseu64(f.Arg[0]))
+//@   ensures [u64-gt] result == nil && len(f.Arg) > 0 && istype(d, "uint64") && f.Op == "gt" ==> frs.set && frs.val == addedVal(old(frs.set), old(frs.val), frs.kind, unbox(d, "uint64") > parseu64(f.Arg[0]))
+//@   ensures [u64-lt] result == nil && len(f.Arg) > 0 && istype(d, "uint64") && f.Op == "lt" ==> frs.set && frs.val == addedVal(old(frs.set), old(frs.val), frs.kind, unbox(d, "uint64") < parseu64(f.Arg[0]))
+//@   ensures [u64-wrapped] result == nil && len(f.Arg) > 0 && istype(d, "eth.Uint64") && f.Op == "gt" ==> frs.set && frs.val == addedVal(old(frs.set), old(frs.val), frs.kind, uint64(unbox(d, "eth.Uint64")) > parseu64(f.Arg[0]))
+//@   ensures [u64-badarg] len(f.Arg) > 0 && istype(d, "uint64") && !isu64(f.Arg[0]) ==> result != nil
+//@   ensures [u256-eq] result == nil && len(f.Arg) > 0 && istype(d, "*uint256.Int") && f.Op == "eq" ==> frs.set && frs.val == addedVal(old(frs.set), old(frs.val), frs.kind, old(*unbox(d, "*uint256.Int")) == u256dec(f.Arg[0]))
+//@   ensures [u256-ne] result == nil && len(f.Arg) > 0 && istype(d, "*uint256.Int") && f.Op == "ne" ==> frs.set && frs.val == addedVal(old(frs.set), old(frs.val), frs.kind, old(*unbox(d, "*uint256.Int")) != u256dec(f.Arg[0]))
+//@   ensures [u256-gt] result == nil && len(f.Arg) > 0 && istype(d, "*uint256.Int") && f.Op == "gt" ==> frs.set && frs.val == addedVal(old(frs.set), old(frs.val), frs.kind, u256lt(u256dec(f.Arg[0]), old(*unbox(d, "*uint256.Int"))))
+//@   ensures [u256-lt] result == nil && len(f.Arg) > 0 && istype(d, "*uint256.Int") && f.Op == "lt" ==> frs.set && frs.val == addedVal(old(frs.set), old(frs.val), frs.kind, u256lt(old(*unbox(d, "*uint256.Int")), u256dec(f.Arg[0])))
+//@   ensures [u256-badarg] len(f.Arg) > 0 && istype(d, "*uint256.Int") && !u256decok(f.Arg[0]) ==> result != nil
+//@   ensures [str-eq] result == nil && len(f.Arg) > 0 && istype(d, "string") && f.Op == "eq" ==> frs.set && frs.val == addedVal(old(frs.set), old(frs.val), frs.kind, unbox(d, "string") == f.Arg[0])
+//@   ensures [str-ne] result == nil && len(f.Arg) > 0 && istype(d, "string") && f.Op == "ne" ==> frs.set && frs.val == addedVal(old(frs.set), old(frs.val), frs.kind, unbox(d, "string") != f.Arg[0])
+//@   ensures [str-contains] result == nil && len(f.Arg) > 0 && istype(d, "string") && f.Op == "contains" ==> frs.set && frs.val == addedVal(old(frs.set), old(frs.val), frs.kind, (exists i int :: 0 <= i && i < len(f.Arg) && f.Arg[i] == unbox(d, "string")))
+//@   ensures [str-notcontains] result == nil && len(f.Arg) > 0 && istype(d, "string") && f.Op == "!contains" ==> frs.set && frs.val == addedVal(old(frs.set), old(frs.val), frs.kind, !(exists i int :: 0 <= i && i < len(f.Arg) && f.Arg[i] == unbox(d, "string")))
+//@   ensures [bytes-folded] result == nil && (len(f.Arg) > 0 || len(f.Ref.Integration) > 0) && (istype(d, "[]byte") || istype(d, "eth.Bytes")) ==> frs.set
